@@ -28,7 +28,15 @@ def arith(op, a, b):
             out.add(VALUE)
         return out
     if x is None or y is None:
-        return {VALUE}
+        out = {VALUE}
+        # numeric-looking text whose value overflows a double ("1E+2000"): #VALUE! or #NUM!, not fixed by the statement
+        for v in (a, b):
+            if v[0] == 't':
+                import re
+                t = v[1].strip()
+                if re.fullmatch(r'[+-]?(\d+(\.\d*)?|\.\d+)([eE][+-]?\d+)?', t) and abs(float(t)) == math.inf:
+                    out.add(NUM)
+        return out
     try:
         if op == '+':
             r = x + y
